@@ -254,12 +254,47 @@ def r5_expiry(cx):
     cx.check("sweep-every-tick", ok, site_of(ch), "GenericCloud::housekeep reaches its Ok return only through table.housekeep()")
 
 
+def r6_last_writer_wins(cx):
+    """Learning makes the sending peer the next hop for the source address on *every* call: each path through
+    ClaimTable::cache either inserts CacheValue{peer: <peer argument>, ..} under the <addr argument> or stores the
+    peer argument into the existing entry's peer field."""
+    prog = cx.prog
+    cache = A.method(prog, "ClaimTable", "cache")
+    cx.touch(cache)
+    writers = []
+    for ci, ct in cache.calls():
+        if callee_is(ct, "collections::HashMap::insert") and len(ct["args"]) == 3:
+            r = deep_root(cache, ct["args"][0])
+            if r is None or not place_is_field(r, "ClaimTable", "cache"):
+                continue
+            k = op_root(cache, ct["args"][1])
+            v = origin(cache, ct["args"][2])
+            okv = False
+            if v[0] == "rvalue" and v[2]["rv"]["k"] == "aggregate" and v[2]["rv"].get("adt", "").endswith("CacheValue"):
+                rv = v[2]["rv"]
+                pr = op_root(cache, rv["ops"][rv["fields"].index("peer")])
+                okv = pr is not None and pr["l"] == 3
+            if k is not None and k["l"] == 2 and okv:
+                writers.append(ci)
+    for bi, si, s in cache.stmts():
+        if s["k"] == "assign" and place_is_field(s["place"], "CacheValue", "peer") and s["rv"]["k"] == "use":
+            pr = op_root(cache, s["rv"]["op"])
+            if pr is not None and pr["l"] == 3:
+                writers.append(bi)
+    cx.floor("peer-writers", len(writers), 1, "places in ClaimTable::cache that bind the address to the given peer")
+    reach = cache.cfg.reachable_from([0], avoid_blocks=writers)
+    esc = [x for x in reach if x in cache.cfg.exits]
+    cx.check("every-call-rebinds", bool(writers) and not esc, site_of(cache),
+             "every path through ClaimTable::cache binds the address to the peer the frame came from (last writer wins)")
+
+
 RULES = [
     ("C13.R1", r1_mode_table, "(mode, device type) -> (learning, broadcast) equals the documented table"),
     ("C13.R2", r2_learning_under_flag, "learning only under the flag, only from received payload, (source address, sending peer)"),
     ("C13.R3", r3_no_dead_comparison, "no comparison of byte sequences with different static lengths in the dissector/table code"),
     ("C13.R4", r4_tag_arithmetic, "802.1Q constants: TPID 0x8100, 12-bit mask, single tag"),
     ("C13.R5", r5_expiry, "learned entries expire at now + switch timeout and are swept each tick"),
+    ("C13.R6", r6_last_writer_wins, "every call of the learning routine rebinds the address to the sending peer"),
 ]
 
 LEVEL_TEXT = ("Static rules on MIR: the (mode, device type) decision table extracted from GenericCloud::new equals the documented one; the only "
